@@ -488,6 +488,40 @@ func (h *Handler) HandleRmdir(ctx *Context, path string) error {
 	return nil
 }
 
+// visitedDirs remembers directories. Where the system tells identity of a file it is a set (a walk over tens of
+// thousands of directories must not compare each one with all others), otherwise directories are compared one by one.
+type visitedDirs struct {
+	ids   map[fileID]struct{}
+	infos []fs.FileInfo
+}
+
+// seen tells if directory was given before, and remembers it.
+func (v *visitedDirs) seen(info fs.FileInfo) bool {
+	if id, ok := fileIDOf(info); ok {
+		if _, seen := v.ids[id]; seen {
+			return true
+		}
+
+		if v.ids == nil {
+			v.ids = make(map[fileID]struct{})
+		}
+
+		v.ids[id] = struct{}{}
+
+		return false
+	}
+
+	for _, other := range v.infos {
+		if os.SameFile(other, info) {
+			return true
+		}
+	}
+
+	v.infos = append(v.infos, info)
+
+	return false
+}
+
 // fsOnly needed to detach all "optional" interfaces like afero.Lstater.
 type fsOnly struct{ afero.Fs }
 
@@ -504,7 +538,7 @@ func (h *Handler) HandleGetDirSize(ctx *Context, path string) (int64, error) {
 
 	var (
 		size    int64
-		visited []fs.FileInfo // links are followed, so the same directory may be met again (maybe as its own descendant)
+		visited visitedDirs // links are followed, so the same directory may be met again (maybe as its own descendant)
 	)
 	// detach afero.Lstater interface to resolve symlinks in afero.Walk.
 	_ = afero.Walk(&fsOnly{walkFs}, path, func(path string, info fs.FileInfo, err error) error {
@@ -515,13 +549,10 @@ func (h *Handler) HandleGetDirSize(ctx *Context, path string) (int64, error) {
 		}
 
 		if info.IsDir() {
-			for _, v := range visited {
-				if os.SameFile(v, info) {
-					return filepath.SkipDir
-				}
+			if visited.seen(info) {
+				return filepath.SkipDir
 			}
 
-			visited = append(visited, info)
 			return nil
 		}
 
